@@ -34,7 +34,7 @@ m = {
     "setup_cmd": "./setup.sh",
     "hooks": {
         "guard": "cambrian_verif",
-        "enable": "RUSTFLAGS=\"--cfg cambrian_verif\" (set in harness/.cargo/config.toml); one hook: src/lib.rs re-exports selection::{Selection, SelectionImpl} and meta_adapt::{mutate, create_exploratory} as cambrian::verif_hooks (+ a check-cfg lint entry in Cargo.toml), and read-only population views on AlgoContext/IndContext (verif_population, verif_next_id, verif_state) re-exported there too, and termination::verif_compile (the compiled criteria as a tuple); everything else uses the public API",
+        "enable": "RUSTFLAGS=\"--cfg cambrian_verif\" (set in harness/.cargo/config.toml); four small add-only commits: src/lib.rs re-exports selection::{Selection, SelectionImpl} and meta_adapt::{mutate, create_exploratory} as cambrian::verif_hooks (+ a check-cfg lint entry in Cargo.toml), and read-only population views on AlgoContext/IndContext (verif_population, verif_next_id, verif_state) re-exported there too, and termination::verif_compile (the compiled criteria as a tuple); everything else uses the public API",
         "baseline_off_cmd": "cd /repo && cargo test --workspace --no-fail-fast --offline",
         "source_commits": ["1918f30", "e5e77fc", "c8fd342", "a127886"],
         "add_only": True,
